@@ -18,6 +18,8 @@ class Crate(object):
         self.adts = {a["path"]: a for a in data.get("adts", [])}
         self._inlined = {}
         if self.name == "lexgen_util":
+            from . import lts as _lts
+            _lts.Expansion.UTIL["crate"] = self
             from . import segx as _segx
             for pth, a in self.adts.items():
                 last = pth.rsplit("::", 1)[-1]
